@@ -9,3 +9,4 @@ pub mod c06;
 pub mod c07;
 pub mod c09;
 pub mod c13;
+pub mod c14;
